@@ -255,7 +255,7 @@ def run(rng, res, tier, shard, nshards):
             case = hostile_requires(rng, case)
         first = check_case(case, res)
         res.case(digest([case['spec'], case['amodel']]) if nontrivial(case) else None)
-        if res.evaluations <= 2:
+        if len(res.samples) < 3 and len(case['amodel']['assets']) >= 2:
             res.sample({'assets': [(a['id'], a.get('req_name', a['name']), a['type'], a['defenses']) for a in case['amodel']['assets']],
                         'types': {a['name']: [s['name'] + ':' + s['type'] for s in a['attackSteps']] for a in case['spec']['assets']}})
         if first:
